@@ -842,6 +842,10 @@ def _sched_case(rng):
             g.hist.append(["req", t, script])
             pending -= 1
             g.clock += rng.choice([1, 2, 3])
+            if rng.random() < 0.4:
+                # exactly ONE more event between two requests, usually earlier than what is still pending
+                g.hist.append(["env", ["sched", g.clock + rng.choice([0, 1, 1, 2, 5]), g.nid("sc")]])
+                pending += 1
     g.pend = pending + 2
     return g.build(0, 12)
 
